@@ -183,4 +183,10 @@ theorem scan_text_le : ∀ (F : Nat) (r : List Rune) (ch : Int) (p : PState) (k 
         rw [← h2]
         exact Nat.le_trans (consumed_le _ _ _ _) (by omega)
 
+theorem scan_of_scanTok (F : Nat) (r : List Rune) (ch : Int) (p : PState) (k : Kind) (s : St)
+    (hw : isWhite ch = false) (h59 : ¬ ch = 59) (h : scanTok ch r p = some (k, s)) :
+    scan (F + 1) r ch p = (some (k, consumed ch r s.2.1 s.1), s) := by
+  rw [scan_succ, skipWhite_stop _ _ _ hw]
+  simp only [if_neg h59, h, finTok]
+
 end LispModel.Proofs.PrintRead
